@@ -26,6 +26,14 @@ BUDGET = {"quick": (16, 40), "thorough": (16, 1500)}
 @st.composite
 def _strategy(draw):
     spec = draw(gc.system(max_res=8))
+    if draw(st.integers(0, 4)) == 0:
+        # residue names longer than the five characters a .gro file holds, alike in their first five
+        import copy
+        spec = copy.deepcopy(spec)
+        for mt in spec["moltypes"]:
+            for r in mt["residues"]:
+                r["resname"] = "RESID" + r["resname"][1:]
+        spec["long_names"] = True
     edge = gc.dilute_box(spec) + 1.0
     # a small rewind depth so that injected failures lead to rewinds also for short chains
     opts = {"box": [edge, edge, edge], "nrewind": draw(st.sampled_from([1, 2, 3, 5]))}
